@@ -9,6 +9,8 @@ import (
 	"encoding/binary"
 	"encoding/json"
 	"fmt"
+	"os"
+	"runtime/debug"
 	"strings"
 	"time"
 
@@ -41,6 +43,7 @@ import (
 	epochstypes "github.com/ExocoreNetwork/exocore/x/epochs/types"
 	distributiontypes "github.com/ExocoreNetwork/exocore/x/feedistribution/types"
 	operatortypes "github.com/ExocoreNetwork/exocore/x/operator/types"
+	oraclekeeper "github.com/ExocoreNetwork/exocore/x/oracle/keeper"
 	oracletypes "github.com/ExocoreNetwork/exocore/x/oracle/types"
 )
 
@@ -144,6 +147,11 @@ func AssetIDOf(lz uint64, assetAddr string) string {
 
 // NewChain boots the app and leaves it in the middle of block 1 (BeginBlock done).
 func NewChain(cfg ChainCfg) *Chain {
+	// x/oracle keeps process-global singletons (keeper/single.go: agc, agcCheckTx, cs) that
+	// would leak from one booted chain into the next one of the same process.
+	oraclekeeper.ResetAggregatorContext()
+	oraclekeeper.ResetCache()
+	oraclekeeper.ResetAggregatorContextCheckTx()
 	c := &Chain{Cfg: cfg, LzID: 101}
 	pruneOpts := pruningtypes.NewPruningOptionsFromString(pruningtypes.PruningOptionDefault)
 	appI, genesisState := exocoreapp.SetupTestingApp(cfg.ChainID, &pruneOpts, false)()
@@ -343,6 +351,9 @@ func recoverTo(dst *string, where string) {
 			s = s[:300]
 		}
 		*dst = where + ": " + strings.ReplaceAll(s, "\n", " ")
+		if os.Getenv("VERIF_STACK") != "" {
+			fmt.Fprintf(os.Stderr, "PANIC %s\n%s\n", *dst, debug.Stack())
+		}
 	}
 }
 
